@@ -5,7 +5,7 @@ CONFIG = {
                 "with one type and only values of that type; the connection pool keeps Size = idle + checked-out + being-dialled <= cap with no connection "
                 "in two places, for callers that close each handle at most once (refuted without that discipline); shard writes vs snapshot/compaction vs "
                 "reads: a read returns every write acknowledged before it began and acknowledged writes stay visible; a published metadata value is never "
-                "modified, an accepted authentication matches the user record that call read, waitForIndex has no lost wake-up, and the lazily allocated tsm1 cache store (Cache.init) loses no acknowledged first write. That each modelled section is atomic and race-free in the Go "
+                "modified, an accepted authentication matches the user record that call read, waitForIndex has no lost wake-up, and the lazily allocated tsm1 cache store loses no acknowledged write, neither to a concurrent first write (Cache.init) nor to the release of an idle shard's store (Engine.Free under the engine lock). That each modelled section is atomic and race-free in the Go "
                 "code is NOT proved: it is observed by a -race stress harness over the real tsdb.Store/Shard, coordinator pool and remote-iterator path, "
                 "hinted-handoff service and meta service/client, each run ending in a quiescent comparison with the acknowledged operations and replayed on the model.",
         "note": "Trusts Coq kernel, the harness and its logging order, the Go race detector; data races inside a section, deadlocks of real mutexes and "
@@ -29,7 +29,7 @@ CONFIG = {
             "shard (writers, readers with a logical clock, WriteSnapshot, full compactions, writes+deletes of other series), remote iterators (random SELECT shapes through "
             "ClusterShardMapper/MetaExecutor against a real coordinator.Service on loopback, some abandoned undrained), meta client/service (retention-policy updates vs readers "
             "holding published objects), meta.Client updates against a snapshot server that publishes within +-60us of its answer (every call must return: no lost wake-up), "
-            "authentication vs password change, goroutines released together writing to the same brand-new series (cache key), goroutines released together making the first writes to a new or freed tsm1.Cache (2500 rounds per run; all lossy rounds and a sample of the others go into the case), hinted handoff (WriteShard for 3 nodes vs sender, purger and Close). "
+            "authentication vs password change, goroutines released together writing to the same brand-new series (cache key), goroutines released together making the first writes to a new or freed tsm1.Cache (10000 rounds per run; all lossy rounds and a sample of the others go into the case), a write racing with what Store.monitorShards does to an idle shard (new shard, one point, cache snapshot, then `if IsIdle { Free }` against a second write delayed 0-150us; 120 rounds per run), hinted handoff (WriteShard for 3 nodes vs sender, purger and Close). "
             "One case per run; distinct = distinct seed/history; non-trivial = the run had concurrency effects to compare (conflicts, reads, reuse of connections...)",
     "trusted_base": [
         "C19: PARTIAL claim - the theorems are about the interleavings of atomic sections; atomicity/race-freedom of each section in the Go code is observed under -race, not proved",
@@ -42,8 +42,8 @@ CONFIG = {
     ],
     "modelled": "modelled: shard.go validateSeriesAndFields/CreateFieldIfNotExists/tsm1 WritePoints type checks; coordinator/pool.go boundedPool+pooledConn (Get split at "
                 "its channel operations, put, Close, MarkUnusable, prune, Pool.Close); tsm1 write (cache, WAL, ack) vs Cache.Snapshot/FileStore.Replace/ClearSnapshot/"
-                "compaction vs cursor construction (cache first, then files); tsm1 Cache.init (flag load, locked install-then-flag section) vs store fetch / store write / return of Write and WriteMulti; meta pointer swap + Client.Authenticate cache. Not modelled: LWW/overwrites and deletes (C01/C10), "
-                "WAL durability, TSM file contents, Cache.Free racing a write (Free is called on idle shards only), raft, hinted-handoff queues (C04), network behaviour, the Go memory model",
+                "compaction vs cursor construction (cache first, then files); tsm1 Cache.init (flag load, locked install-then-flag section) vs store fetch / store write / return of WriteMulti under e.mu.RLock vs the monitor's IsIdle and Engine.Free (exclusive lock, second look at the size), with a whole cache snapshot as one step; meta pointer swap + Client.Authenticate cache. Not modelled: LWW/overwrites and deletes (C01/C10), "
+                "WAL durability, TSM file contents, raft, hinted-handoff queues (C04), network behaviour, the Go memory model",
     "assumptions": ["each modelled section is atomic and free of data races (observed under the Go race detector, not proved)",
                     "no deadlock among the real mutexes (observed by time-outs of the stress runs, not proved)",
                     "callers of the pool close every pooledConn at most once (observed on the remote-iterator path; the code has no guard)",
